@@ -409,6 +409,17 @@ fn oracle(c: &Case, st: &mut Stats) -> Result<(), String> {
         if parse_openssl_25519_privkey(&priv_der).map(|s| s.to_bytes()).ok() != Some(sec.to_bytes()) || parse_openssl_25519_pubkey(&pub_der).map(|p| *p.as_bytes()).ok() != Some(*pk.as_bytes()) {
             return Err("DER given to the PEM-or-DER entry point parses differently".into());
         }
+        // ---- any 32 bytes are an X25519 public key: the DER form of the seed taken as a public key goes through the
+        // PEM-or-DER entry point exactly as through the DER one
+        {
+            let mut der = cli::PUB_PREFIX_X.to_vec();
+            der.extend_from_slice(&seed);
+            let a = parse_openssl_25519_pubkey_der(&der).map(|p| *p.as_bytes()).map_err(|e| format!("{e:?}"));
+            let b = parse_openssl_25519_pubkey(&der).map(|p| *p.as_bytes()).map_err(|e| format!("{e:?}"));
+            if a != b {
+                return Err(format!("public DER {} parses to {:?} through the DER entry point and to {:?} through the PEM-or-DER one", hex::encode(&der), a.map(hex::encode), b.map(hex::encode)));
+            }
+        }
         // ---- several concatenated public keys
         if c.many > 0 {
             let mut text = String::new();
@@ -530,6 +541,9 @@ fn oracle(c: &Case, st: &mut Stats) -> Result<(), String> {
         Ok(())
     });
     st.label(if c.ed { "kind=ed25519" } else { "kind=x25519" });
+    if c.seed.iter().all(|b| *b < 0x80) {
+        st.label("key bytes all below 0x80");
+    }
     if !c.muts.is_empty() || c.random.is_some() || c.tlv.is_some() || c.width != 64 || c.crlf {
         st.nontrivial(util::hash64(format!("{c:?}").as_bytes()));
     }
@@ -589,7 +603,8 @@ pub fn tlv() -> impl Strategy<Value = Tlv> {
 
 fn case() -> impl Strategy<Value = Case> {
     (
-        prop::collection::vec(any::<u8>(), 32),
+        // key material of every byte class: arbitrary, 7-bit only (a DER key is then pure ASCII), constant
+        prop_oneof![6 => prop::collection::vec(any::<u8>(), 32), 2 => prop::collection::vec(0u8..0x80, 32), 1 => prop::collection::vec(0x20u8..0x7f, 32), 1 => Just(vec![0u8; 32]), 1 => Just(vec![0x7fu8; 32]), 1 => Just(vec![0xffu8; 32])],
         any::<bool>(),
         prop_oneof![4 => Just(64u8), 1 => Just(76u8), 1 => Just(0u8), 3 => 1u8..77],
         any::<bool>(),
